@@ -83,3 +83,33 @@ func VHIter() {
 	l, pre := VGList()
 	containers.VIterStep(func() containers.IteratorWithIndex[int] { it := l.Iterator(); return &it }, pre, l)
 }
+
+// VHEnum: Each/Any/All/Find/Select/Map with arbitrary predicate and mapping functions (C14).
+func VHEnum() {
+	l, _ := VGList()
+	containers.VEnumStep(containers.VEnum{Recv: l, Indexed: true,
+		Seq:    func(c any) ([]int, []int) { vs := c.(*List[int]).Values(); return containers.VIdx(len(vs)), vs },
+		Each:   l.Each, Any: l.Any, All: l.All, Find: l.Find,
+		Select: func(f func(a, b int) bool) any { return l.Select(f) },
+		Map: func(f func(a, b int) (int, int)) any {
+			return l.Map(func(i, x int) int { _, y := f(i, x); return y })
+		},
+		Build: func(as, bs []int) any { return New(bs...) },
+		Touch: func(c any) {
+			r := c.(*List[int])
+			if r.Size() > 0 {
+				x, _ := r.Get(0)
+				r.Set(0, x+1)
+				r.Swap(0, r.Size()-1)
+			}
+			r.Add(v.Int("t"))
+			r.Remove(0)
+		},
+	})
+}
+
+// VHSnap: returned slices are snapshots, argument slices are copied, GetSortedValues leaves the container alone (C16).
+func VHSnap() {
+	c, _ := VGList()
+	containers.VSnapStep(containers.VSnap{C: c, Mutate: []func(){c.Clear, func() { c.Add(v.Int("m")) }, func() { c.Remove(0) }, func() { c.Set(0, v.Int("m")) }, func() { c.Swap(0, c.Size()-1) }, func() { c.Sort(func(a, b int) int { return b - a }) }}, AddArgs: []func([]int){func(a []int) { c.Add(a...) }, func(a []int) { c.Append(a...) }, func(a []int) { c.Prepend(a...) }, func(a []int) { c.Insert(0, a...) }}, New: func(a []int) containers.Container[int] { return New(a...) }})
+}
